@@ -104,6 +104,13 @@ func (x *X) NewWatcher(buf int) (*fsnotify.Watcher, error) {
 		x.Watchers = append(x.Watchers, w)
 		vsched.NameChan(w.Events, fmt.Sprintf("Events%d", idx))
 		vsched.NameChan(w.Errors, fmt.Sprintf("Errors%d", idx))
+		// the notification descriptor must not be inheritable: a child process started while the Watcher is
+		// open would otherwise keep the instance and all its kernel watches alive after Close (C13)
+		if fds := vsys.Get().Fds; len(fds) > 0 {
+			if fl, e := unix.FcntlInt(uintptr(fds[len(fds)-1]), unix.F_GETFD, 0); e == nil && fl&unix.FD_CLOEXEC == 0 {
+				x.obs(Obs{Kind: "note", What: "inheritable-descriptor", Arg: "the inotify descriptor is not close-on-exec"})
+			}
+		}
 	}
 	x.obs(Obs{Kind: "ret", What: "NewWatcher", Arg: fmt.Sprint(buf), Err: ErrClass(err), W: idx})
 	return w, err
